@@ -19,10 +19,11 @@ CLAIMS = {
                 "library's own extract_format on every case.",
     },
     "C08": {
-        "text": "Theorems over the Fetch model (7): for ALL masters/sources/env/canon every definition of a diff has a canonical text different from its master's, no scope of a diff is "
+        "text": "Theorems over the Fetch and Vars models (13): for ALL masters/sources/env/canon every definition of a diff has a canonical text different from its master's, no scope of a diff is "
                 "empty, nothing undeclared appears (C08_only_differences); on D08 (D07 + unique names + no .multiple scope, under H_self) the diff, the restore (kept values identical, "
                 "dropped values back as the master's own with the same canon, multiple blocks unchanged in order), diff-of-restored = diff and empty diff of defaults are characterised "
-                "block-wise. F7c refuted by witness (a further master occurrence reorders the restore). PARTIAL: .multiple scopes, text forms and non-raising of later runs by stream only.",
+                "block-wise. F7c refuted by witness (a further master occurrence reorders the restore). Unresolved $variables stay textual: the text written for such a reference ($name, or $(name) "
+                "where the bare form would read differently; /repo cef4de5 + 9ff1177) re-reads as the same reference whatever follows it (6 theorems over the scanner model, all names, all following texts). PARTIAL: .multiple scopes, text forms and non-raising of later runs by stream only.",
         "note": "Trusted as C07.",
     },
     "C09": {
@@ -79,7 +80,8 @@ CLAIMS = {
                 "C12_parsed_documents_are_ordered, every object of a parsed document carries an id, the ids are 1, 2, ... in document order); resolution always terminates; Undefined-variable and syntax "
                 "errors carry the line of the word. Dotted names are covered without exception: since /repo 2398dd1 the implicit prefix scopes of a dotted name carry the id of the object they lead to, "
                 "so a LATER dotted definition is cut off like every other later object (C12_later_appended_irrelevant; for parsed documents without side condition C12_parsed_backward_only, "
-                "C12_parsed_appended_irrelevant, C12_parsed_truncation_exact). No open finding.",
+                "C12_parsed_appended_irrelevant, C12_parsed_truncation_exact). diff_mode (fetch_diff) keeps an unresolved reference textual as $name, or $(name) where the bare form would read "
+                "differently (diff_text; /repo cef4de5) - modelled and compared on every run. No open finding.",
         "note": "Trusted: Coq kernel, extraction, driver, harness, hand-written model of variable_substitution_proxy, resolve_variables, lexical_get; os.environ is an oracle table; "
                 "tmp marks and alias paths not modelled.",
     },
